@@ -637,6 +637,24 @@ fn check_send(world: &mut World, before: &ModelState, i: usize, s: &SendStep, o:
                 return;
             }
             let mut exp = before.clone();
+            // (a formatter whose message is only started when the first query unit is reached:
+            // the units in front of it have run)
+            if let Some(fq) = s.msg.units.iter().position(|u| u.query) {
+                if fq > 0 {
+                    let mut s2 = s.clone();
+                    s2.msg.units.truncate(fq);
+                    s2.fmt = FmtCfg::Vec;
+                    let p2 = predict(&world.root, before, &s2, Reading::Condition);
+                    let mut e2 = p2.state.clone();
+                    if let Err(e) = &o.result {
+                        e2.record_error(e);
+                    }
+                    let now = world.adopt();
+                    if p2.structural && p2.result.is_ok() && e2.esr == now.esr && e2.queue.items == now.queue.items && e2.ese == now.ese && e2.sre == now.sre {
+                        exp = p2.state.clone();
+                    }
+                }
+            }
             if let Err(e) = &o.result {
                 exp.record_error(e);
             }
@@ -644,7 +662,7 @@ fn check_send(world: &mut World, before: &ModelState, i: usize, s: &SendStep, o:
         }
         return;
     }
-    let pred = super::predict_seen(world, before, s, o, Reading::Condition);
+    let pred = super::predict_seen_allow(world, before, s, o, Reading::Condition, A_PRESCAN_MSG | A_PRESCAN_UNIT);
     let after = world.snap();
     let qfull_before = before.queue.cap.map(|c| before.queue.items.len() >= c).unwrap_or(false);
     let outcome_class: u8 = match &o.result {
